@@ -190,15 +190,17 @@ func (v *VerifQueue) AddMapping(now uint32, str string, id int32) {
 }
 
 // MapEvent runs the real Agent.Map on an event; h.MetricMeta must be set by the caller, as the receiver does.
-func (v *VerifQueue) MapEvent(m *tlstatshouse.MetricBytes, h *data_model.MappedMetricHeader) {
-	v.A.Map(data_model.HandlerArgs{MetricBytes: m}, h, nil)
+// scratch is the per-worker buffer the receiver reuses across events (may be nil).
+func (v *VerifQueue) MapEvent(m *tlstatshouse.MetricBytes, h *data_model.MappedMetricHeader, scratch *[]byte) {
+	v.A.Map(data_model.HandlerArgs{MetricBytes: m, Scratch: scratch}, h, nil)
 }
 
 // ApplyMetric runs the real Agent.ApplyMetric.
-func (v *VerifQueue) ApplyMetric(m *tlstatshouse.MetricBytes, h *data_model.MappedMetricHeader) {
-	var scratch []byte
-	v.A.ApplyMetric(m, h, &scratch)
+func (v *VerifQueue) ApplyMetric(m *tlstatshouse.MetricBytes, h *data_model.MappedMetricHeader, scratch *[]byte) {
+	v.A.ApplyMetric(m, h, scratch)
 }
+
+func (v *VerifQueue) NumShards() int { return len(v.A.Shards) }
 
 func VerifQueueStatusClamped() int32 { return format.TagValueIDSrcIngestionStatusWarnTimestampClampedFuture }
 func VerifQueueStatusOK() int32      { return format.TagValueIDSrcIngestionStatusOKCached }
